@@ -429,6 +429,27 @@ def check_live(c, st):
                 return ('frames:sys.tracebacklimit', 'with sys.tracebacklimit=%d ExceptionInfo lists %r, the traceback module %r'
                         % (limit, [g[1:3] for g in got_g], [w[1:3] for w in want_g]))
             st.count('live_cases_with_limit')
+        if c.get('syslimit') is not None:
+            # sys.tracebacklimit set to zero or below (tracebacks switched off): the same frames - none - as the
+            # traceback module lists (only the frame lists are compared for these settings)
+            st.monitor_evals += 1
+            had = getattr(sys, 'tracebacklimit', None)
+            sys.tracebacklimit = c['syslimit']
+            try:
+                want_z = [(f.filename, f.lineno, f.name) for f in traceback.extract_tb(tb)]
+                got_z = [(cp.module_path, cp.lineno, cp.func_name) for cp in tbu.ExceptionInfo.from_exc_info(et, ev, tb).tb_info.frames]
+                got_z2 = [(cp.module_path, cp.lineno, cp.func_name) for cp in tbu.TracebackInfo.from_traceback(tb).frames]
+            except Exception as e:
+                return ('exceptioninfo-raised:%s:syslimit' % type(e).__name__, 'sys.tracebacklimit=%r on %r raised %r' % (c['syslimit'], c, e))
+            finally:
+                if had is None:
+                    del sys.tracebacklimit
+                else:
+                    sys.tracebacklimit = had
+            if got_z != want_z or got_z2 != want_z:
+                return ('frames:sys.tracebacklimit:non-positive', 'with sys.tracebacklimit=%d ExceptionInfo lists %d frames, TracebackInfo %d, '
+                        'the traceback module %d' % (c['syslimit'], len(got_z), len(got_z2), len(want_z)))
+            st.count('live_cases_with_non_positive_sys_limit')
         want_frames = [(f.filename, f.lineno, f.name, (f.line or '').strip()) for f in traceback.extract_tb(tb)]
         if c.get('cold'):
             want_cold_text = strip_markers(''.join(traceback.format_exception(et, ev, tb))).rstrip('\n')
@@ -519,6 +540,8 @@ def gen_live(r):
          'unicode_name': r.random() < 0.15, 'rerun': r.random() < 0.2}
     if r.random() < 0.3:
         c['limit'] = r.choice([1, 2, 3, 5, 40])
+    if r.random() < 0.15:
+        c['syslimit'] = r.choice([0, -1, -2, -50])
     if r.random() < 0.35:
         c['rerun'] = False
         c['mem'] = r.random() < 0.7
